@@ -47,8 +47,22 @@ theorem C08_layout_sym (a : AlgoParams) (ha : a ∈ Gen.symmetricRows) (m : Mode
   have := signAndEncrypt_eq_spec ⟨m, pn, a, c⟩ false (symParts mt flag chan tok seq req body) h3 hpos
   simpa [symParts, Side.encrypts] using this
 
+/-- LAYOUT of `CLO` (CloseSecureChannel) chunks: the instance of
+    `C08_layout_sym` for message type "CLO" — same symmetric layout as `MSG`
+    (the theorem is for every 3-byte message type).  A `CLO` is a single final
+    chunk; on the receiving side `readChunk` ends the connection (`io.EOF`)
+    without opening it (`Chunk.readChunk`, C07). -/
+theorem C08_layout_clo (a : AlgoParams) (ha : a ∈ Gen.symmetricRows) (m : Mode) (pn : Bool) (c : Crypto)
+    (chan tok seq req : Nat) (body : Bytes) :
+    signAndEncrypt ⟨m, pn, a, c⟩ false 16 (rawChunk (symParts typeCLO chunkF chan tok seq req body)) =
+      toRes (secureChunk (suiteOf ⟨m, pn, a, c⟩) (decide (m ≠ .none)) (decide (m ≠ .none) && decide (m = .signAndEncrypt))
+        (symParts typeCLO chunkF chan tok seq req body) 0) :=
+  C08_layout_sym a ha m pn c typeCLO rfl chunkF chan tok seq req body
+
 /-- LAYOUT, asymmetric: for ALL key-size pairs and overheads, any security
-    header bytes — the same equality for `OPN` chunks (always encrypted). -/
+    header bytes and any body — the same equality for `OPN` chunks (always
+    encrypted), in the request direction (client → server) and the response
+    direction (server → client) alike: the layout does not depend on the service. -/
 theorem C08_layout_asym (ls rs pad : Nat) (hpad : pad < rs) (m : Mode) (pn : Bool) (c : Crypto)
     (p : Parts) (h3 : p.msgType.length = 3) :
     signAndEncrypt ⟨m, pn, asymParams ls rs pad, c⟩ true (12 + p.secHeader.length) (rawChunk p) =
@@ -88,6 +102,26 @@ theorem C08_conformance_asym (ls rs pad : Nat) (hpad : pad < rs) (hrs : rs ≤ 6
         .ok (sequenceHeader p ++ p.body) := by
   have := conformance (C07.paired_asym ls rs pad hpad hrs m pS pR cS cR hc) true hm p h3
   simpa [Side.encrypts] using this
+
+/-- CONFORMANCE OF THE EXECUTED INSTANCE: `C08_conformance_sym` for the
+    primitives the drivers actually run (proved CBC over the reference AES block
+    functions, reference HMAC, keys by the model of `uapolicy.Symmetric`); the
+    only cryptographic assumptions left are the AES block inverse and the HMAC
+    output length (`C07.AesBlockOK`, `C07.HmacLenOK`). -/
+theorem C08_conformance_reference (a : AlgoParams) (ka : Keys.KeyAssign)
+    (hk : (a, ka) ∈ Gen.symmetricRows.zip Gen.keyAssignRows) (hlen : C07.HmacLenOK) (haes : C07.AesBlockOK)
+    (x y : Bytes) (m : Mode) (hm : m ≠ .none)
+    (mt : Bytes) (h3 : mt.length = 3) (flag : UInt8) (chan tok seq req : Nat) (body : Bytes) :
+    ∃ w, signAndEncrypt ⟨m, false, a, ChunkRef.refCrypto ka (Keys.symmetric ka CryptoRef.hmac x y)⟩ false 16
+          (rawChunk (symParts mt flag chan tok seq req body)) = .ok w ∧
+      (w.length < 4294967296 →
+        openChunk (recvSuiteOf ⟨m, false, a, ChunkRef.refCrypto ka (Keys.symmetric ka CryptoRef.hmac y x)⟩) true
+          (decide (m = .signAndEncrypt)) 16 w = some (leBytes 4 seq ++ leBytes 4 req ++ body)) ∧
+      verifyAndDecrypt ⟨m, false, a, ChunkRef.refCrypto ka (Keys.symmetric ka CryptoRef.hmac y x)⟩ false 16 w =
+        .ok (leBytes 4 seq ++ leBytes 4 req ++ body) := by
+  obtain ⟨w, h1, -, h2, h4⟩ := C08_conformance_sym a (List.of_mem_zip hk).1 m hm false false _ _
+    (C07.C07_reference_crypto_ok a ka hk hlen haes x y) mt h3 flag chan tok seq req body
+  exact ⟨w, h1, h2, h4⟩
 
 /-- ACCEPTS EVERY SPECIFICATION CHUNK, symmetric SignAndEncrypt: also when the
     peer pads with `k` additional whole blocks (as long as the count fits its
